@@ -14,6 +14,7 @@
    code breaks the invariant (Known10), and a tiny hand-made table set.
    MODEL/SPEC ONLY: definitions + Examples, no proofs. *)
 From AV Require Import Base.Bytes Base.Outcome Hash.HashModel Tree.Heap Tree.Ops Tree.Script Tree.Serialize Tree.Inv.
+From AV Require Xml.Parser.
 Open Scope string_scope.
 Open Scope list_scope.
 Open Scope N_scope.
@@ -98,6 +99,66 @@ Fixpoint ser_ids (fuel : nat) (w : world) (ff : option N) (i : id) {struct fuel}
       end
     end
   end.
+
+(* ---------- the projection of a file as an element tree (what the text of the file denotes) ----------
+   fproj w ff i : the tree below i with exactly the sub-elements that pass the filter, in document order, every
+   element with its name, STORED type, attributes, character data items and comment.  None = fuel / dangling id. *)
+Definition pc_attrs (a : list (N * cdata)) : list (N * Parser.cdata) := map (fun x => (fst x, to_pc (snd x))) a.
+
+Fixpoint fproj_items (w : world) (ff : option N) (rec : id -> option Parser.etree) (l : list citem)
+  : option (list (Parser.etree + Parser.cdata)) :=
+  match l with
+  | [] => Some []
+  | CData d :: r => option_map (cons (inr (to_pc d))) (fproj_items w ff rec r)
+  | CElem c :: r =>
+    match w_nodes w c with
+    | None => None
+    | Some cn =>
+      if passes ff cn then
+        match rec c, fproj_items w ff rec r with
+        | Some t, Some rest => Some (inl t :: rest)
+        | _, _ => None
+        end
+      else fproj_items w ff rec r
+    end
+  end.
+
+Fixpoint fproj (fuel : nat) (w : world) (ff : option N) (i : id) {struct fuel} : option Parser.etree :=
+  match fuel with
+  | O => None
+  | S fl =>
+    match w_nodes w i with
+    | None => None
+    | Some n =>
+      match fproj_items w ff (fproj fl w ff) (n_content n) with
+      | Some content => Some (Parser.ENode (n_name n) (n_type n) (pc_attrs (n_attrs n)) content (n_comment n))
+      | None => None
+      end
+    end
+  end.
+
+(* an item of a content list survives the filter *)
+Definition item_kept (w : world) (ff : option N) (it : citem) : Prop :=
+  match it with
+  | CData _ => True
+  | CElem c => exists cn, w_nodes w c = Some cn /\ passes ff cn = true
+  end.
+
+(* no written element is HOLLOW: the writer decides between <X/> and <X>..</X> on the unfiltered content list, so
+   an element with content none of which survives the filter is written <X>..</X> with nothing inside, which is not
+   the text of its projection (content []); in character mode the first unfiltered item decides what is written. *)
+Definition NoHollow (w : world) (ff : option N) (r : id) : Prop :=
+  forall i n, Proj w ff r i -> w_nodes w i = Some n -> n_content n <> [] ->
+    (exists it, In it (n_content n) /\ item_kept w ff it) /\
+    (forall mode first rest, content_mode T (n_type n) = Val mode -> (mode =? MCharacters) = true ->
+       n_content n = first :: rest -> item_kept w ff first).
+
+(* every written element of file g with content keeps some of it when file f goes: a character data item or a
+   sub-element attributed to some file other than f *)
+Definition KeepsSome (w : world) (f g : N) (r : id) : Prop :=
+  forall i n, Proj w (Some g) r i -> w_nodes w i = Some n -> n_content n <> [] ->
+    exists it, In it (n_content n) /\
+      match it with CData _ => True | CElem c => exists h, h <> f /\ Attributed w c h end.
 
 (* elements of a file: what ArxmlFile::serialize writes / ArxmlFile::elements_dfs yields (when f ∈ the root's set) *)
 Definition file_ids (w : world) (x : model) (f : N) : res (list id) := ser_ids (fuel_of w) w (Some f) (m_root x).
